@@ -187,46 +187,51 @@ def fn_sweep(items):
 
 
 def _n3_states(budget, seed):
-    """N=3 source states: BFS from constructors (rotations + measurements), deduplicated by
-    density matrix, all ranks; deterministic."""
+    """N=3 source states: BFS (rotations by +G, single measurements under both coins) run separately
+    from each of six start states of every rank (zero, one, GHZ, maximally mixed, a rank-2 and a rank-4
+    mixed state with signs), budget/6 each, deduplicated by CONCRETE TABLEAU (pivot-position bugs
+    depend on the rows, not only on the density matrix); deterministic."""
     pc = lib.pc
     N = 3
     herm = dom.hermitian_paulis(N, include_identity=False)
     gens = [lib.P(g, p) for g, p in herm if p == 0]
     obs = [lib.PL([g], [p]) for g, p in herm if p == 0]
-    start = [pc.zero_state(N), pc.maximally_mixed_state(N), pc.ghz_state(N), pc.one_state(N)]
+    starts = [pc.zero_state(N), pc.maximally_mixed_state(N), pc.ghz_state(N), pc.one_state(N),
+              pc.stabilizer_state('-XZI', 'ZXZ'), pc.stabilizer_state('-YIY')]
     seen = {}
     out = []
-    frontier = []
-    for st in start:
-        k = ref.rho_key(stab.rho_of(st.gs, st.ps, st.r))
-        if k not in seen:
-            seen[k] = 1
-            frontier.append((np.array(st.gs), np.array(st.ps), int(st.r)))
-            out.append(frontier[-1])
-    while frontier and len(out) < budget:
-        nxt = []
-        for gs0, ps0, r0 in frontier:
-            for G in gens:
-                st = lib.ST(gs0, ps0, r0)
-                st.rotate_by(G)
-                k = ref.rho_key(stab.rho_of(st.gs, st.ps, st.r))
-                if k not in seen:
-                    seen[k] = 1
-                    nxt.append((np.array(st.gs), np.array(st.ps), int(st.r)))
-            for O in obs:
-                for coin in (0, 1):
+    per = max(1, budget // len(starts))
+    for st0 in starts:
+        mine = []
+        k0 = stab.key_arrays(st0.gs, st0.ps, st0.r)
+        if k0 not in seen:
+            seen[k0] = 1
+            mine.append((np.array(st0.gs), np.array(st0.ps), int(st0.r)))
+        frontier = list(mine)
+        while frontier and len(mine) < per:
+            nxt = []
+            for gs0, ps0, r0 in frontier:
+                succ = []
+                for j, G in enumerate(gens):
                     st = lib.ST(gs0, ps0, r0)
-                    rng.script((coin,), None)
-                    st.measure(O)
-                    k = ref.rho_key(stab.rho_of(st.gs, st.ps, st.r))
-                    if k not in seen:
+                    st.rotate_by(G)
+                    succ.append(st)
+                    st = lib.ST(gs0, ps0, r0)
+                    rng.script((j % 2,), None)
+                    st.measure(obs[j])
+                    succ.append(st)
+                for st in succ:
+                    k = stab.key_arrays(st.gs, st.ps, st.r)
+                    if k not in seen and not ref.tableau_invariant(np.asarray(st.gs), np.asarray(st.ps), int(st.r)):
                         seen[k] = 1
                         nxt.append((np.array(st.gs), np.array(st.ps), int(st.r)))
-            if len(out) + len(nxt) >= budget:
-                break
-        out.extend(nxt)
-        frontier = nxt
+                        mine.append(nxt[-1])
+                        if len(mine) >= per:
+                            break
+                if len(mine) >= per:
+                    break
+            frontier = nxt
+        out.extend(mine[:per])
     return out[:budget]
 
 
@@ -274,16 +279,18 @@ def legs(tier):
         reps = stab.representatives(2, seed)
         out.append(Leg('N2_L2_reps', fn_sweep, [[2, i, 2] for i in reps], chunk=2, src_states=len(reps),
                        bound='one tableau per density matrix (91; VERIF_SEED rotates the representative) x all 544 commuting signed pairs x coin tree'))
-        out.append(Leg('N3_L1', fn_n3, [[60, i, 1] for i in range(60)], chunk=2, exhaustive=False, supplementary=True,
-                       bound='60 distinct N=3 density matrices from BFS x all 128 signed observables'))
+        out.append(Leg('N3_L1', fn_n3, [[402, i, 1] for i in range(402)], chunk=5, exhaustive=False, supplementary=True,
+                       bound='402 distinct N=3 tableaux (BFS from six start states of every rank, 67 each) x all 128 signed observables x coin tree'))
+        out.append(Leg('N3_L2', fn_n3, [[402, i, 2] for i in range(0, 402, 4)], chunk=2, exhaustive=False, supplementary=True,
+                       bound='100 of those N=3 tableaux x 1/7 of all ordered commuting pairs (rotating) x 2 sign patterns'))
     else:
         out.append(Leg('N2_L2_all', fn_sweep, [[2, i, 2] for i in range(34560)], chunk=30, src_states=34560,
                        bound='all 34560 tableaux x all 544 commuting signed pairs x coin tree', timeout=6000))
         reps = stab.representatives(2, seed)
         out.append(Leg('N2_L3_reps', fn_sweep, [[2, i, 3] for i in reps], chunk=1, src_states=len(reps),
                        bound='one tableau per density matrix x all commuting triples of non-identity strings x 3 sign patterns'))
-        out.append(Leg('N3_L1', fn_n3, [[600, i, 1] for i in range(600)], chunk=4, exhaustive=False, supplementary=True,
-                       bound='600 distinct N=3 density matrices from BFS x all 128 signed observables'))
-        out.append(Leg('N3_L2', fn_n3, [[600, i, 2] for i in range(600)], chunk=4, exhaustive=False, supplementary=True,
-                       bound='600 N=3 density matrices x 1/7 of all ordered commuting pairs (rotating) x 2 sign patterns'))
+        out.append(Leg('N3_L1', fn_n3, [[4002, i, 1] for i in range(4002)], chunk=10, exhaustive=False, supplementary=True,
+                       bound='4002 distinct N=3 tableaux from BFS (six start states of every rank) x all 128 signed observables'))
+        out.append(Leg('N3_L2', fn_n3, [[4002, i, 2] for i in range(0, 4002, 4)], chunk=4, exhaustive=False, supplementary=True,
+                       bound='1000 N=3 tableaux x 1/7 of all ordered commuting pairs (rotating) x 2 sign patterns'))
     return out
